@@ -54,6 +54,7 @@ mut("vector-getitem-resolves-slice", "core/vector.py", "    def __getitem__(self
 mut("registry-gaussian-context", "units/units.py", 'self._ureg = UnitRegistry(system="cgs")', 'self._ureg = UnitRegistry(system="cgs")\n        self._ureg.enable_contexts("Gaussian")', ["C07", "C08"])
 mut("map-direction-gets-depth", "plot/map.py", "            dy=dy,\n            origin=origin,", "            dy=dz,\n            origin=origin,", ["C18"])
 mut("unitslibrary-shared-memo", "units/library.py", "    def __getitem__(self, key):\n        if key in self._library:\n            return self._library[key]", "    _memo = {}\n\n    def __getitem__(self, key):\n        if key in self._memo:\n            return self._memo[key]\n        self._memo[key] = self._lookup(key)\n        return self._memo[key]\n\n    def _lookup(self, key):\n        if key in self._library:\n            return self._library[key]", ["C01"])
+mut("bound-keys-memoised", "io/hilbert.py", "def _read_bound_key(infofile, ncpu):", "import functools\n\n\n@functools.lru_cache(maxsize=None)\ndef _read_bound_key(infofile, ncpu):", ["C04"])
 mut("predicate-on-raw-values", "io/reader.py", "conditions[key] = func(self.variables[key][\"buffer\"])", "conditions[key] = func(self.variables[key][\"buffer\"].values)", ["C04"])
 mut("conditions-single-key", "io/reader.py", "                    conditions[key] = func(self.variables[key][\"buffer\"])", "                    conditions[\"select\"] = func(self.variables[key][\"buffer\"]) & conditions.get(\"select\", True)", ["C12", "C04"])
 # ---- core/vector.py
